@@ -111,9 +111,19 @@ pub fn serve_raw(
                         Ok(0) => break,
                         Ok(n) => {
                             buf.extend_from_slice(&tmp[..n]);
-                            // a 101 response never closes by itself
-                            if buf.starts_with(b"HTTP/1.1 101") && buf.windows(4).any(|w| w == b"\r\n\r\n") {
-                                break;
+                            // a 101 response never closes by itself; a keep-alive response is complete once its body is in
+                            if let Some(pos) = buf.windows(4).position(|w| w == b"\r\n\r\n") {
+                                if buf.starts_with(b"HTTP/1.1 101") {
+                                    break;
+                                }
+                                let head = String::from_utf8_lossy(&buf[..pos]).to_ascii_lowercase();
+                                if let Some(cl) = head.split("\r\n").find_map(|l| l.strip_prefix("content-length:").map(|v| v.trim().parse::<usize>().unwrap_or(0))) {
+                                    if buf.len() >= pos + 4 + cl {
+                                        break;
+                                    }
+                                } else if head.contains("transfer-encoding: chunked") && buf.ends_with(b"0\r\n\r\n") {
+                                    break;
+                                }
                             }
                         }
                         Err(_) => break,
@@ -126,7 +136,7 @@ pub fn serve_raw(
             .flatten();
             out.push(r);
         }
-        let _ = server.close().await;
+        let _ = tokio::time::timeout(std::time::Duration::from_millis(500), server.close()).await;
         out
     })
 }
